@@ -20,7 +20,7 @@ def harnesses(ctx, tier):
                     unwind_funcs={"strcmp": 5, "strlen": 5, "sym_def": 5, "yr_hash": 3, "hash": 3, "main": 4, "yr_arena_ptr_to_ref": 3, "yr_hash_table_create": 66, "yr_hash_table_clean": 66, "yr_hash_table_destroy": 66},
                     desc="rules-define / scanner-create / scanner-define sequence with symbolic ids, types, values (declared types %s,%s); values read back on both scanners" % (names[ta], names[tb]),
                     bounds="2 variables (+1 unknown id), 2 scanners, 4 define operations", functions=["yr_rules_define_*_variable", "yr_scanner_create", "yr_scanner_define_*_variable", "yr_object_from_external_variable", "yr_object_set_integer/float", "yr_hash_table_add/lookup"]))
-    hs.append(Harness(name="H1_compiler_define_duplicate", src="c20/compiler_define.c", unwind=6, timeout=900, mem_gb=30, flags=["--object-bits", "10"],
+    hs.append(Harness(name="H1_compiler_define_duplicate", src="c20/compiler_define.c", unwind=6, timeout=2400, mem_gb=30, flags=["--object-bits", "10"],
                       unwind_funcs={"strcmp": 4, "strlen": 4, "yr_hash": 12, "hash": 12, "yr_hash_table_create": 6, "_yr_hash_table_lookup": 4, "memcmp": 12,
                                     "_yr_arena_allocate_memory": 6, "rec:yr_object_destroy": 1, "yr_object_destroy": 2, "strcpy": 4, "memcpy": 12, "_yr_arena_make_ptr_relocatable": 3},
                       desc="compile-time definitions: a duplicate identifier is rejected and leaves the externals table unchanged; a new identifier adds one entry",
